@@ -171,6 +171,41 @@ fn run<A: Alphabet>(case: &Case, text: &[u8], info: &mut CaseInfo) -> Option<Fai
         if seq.to_string().as_bytes() != text || seq.len() != text.len() {
             return Some(Failure::new("display:roundtrip", "to_string() does not reproduce the input".to_string()));
         }
+        // "symbol i of the result" through every accessor of the encoded sequence (Index, iter(), IntoIterator,
+        // AsRef<[Symbol]>), and the same sequence rebuilt from its symbols (new, From<Vec>, FromIterator) displays
+        // the same text and compares equal
+        let letters = A::as_str().as_bytes();
+        let by_iter: Vec<A::Symbol> = seq.iter().copied().collect();
+        let by_into: Vec<A::Symbol> = (&seq).into_iter().copied().collect();
+        let by_ref: &[A::Symbol] = seq.as_ref();
+        if by_iter.len() != text.len() || by_into.len() != text.len() || by_ref.len() != text.len() {
+            return Some(Failure::new("symbols:count", format!("iter() {} / into_iter() {} / as_ref() {} symbols for {} bytes", by_iter.len(), by_into.len(), by_ref.len(), text.len())));
+        }
+        for (i, &b) in text.iter().enumerate() {
+            for (what, s) in [("Index", seq[i]), ("iter", by_iter[i]), ("IntoIterator", by_into[i]), ("AsRef", by_ref[i])] {
+                if letters.get(s.as_index()) != Some(&b) {
+                    return Some(Failure::new("symbols:value", format!("{}: symbol {} is #{} but byte {} is {:?}", what, i, s.as_index(), i, b as char)));
+                }
+            }
+        }
+        let rebuilt = [
+            ("new", EncodedSequence::<A>::new(by_iter.clone())),
+            ("From<Vec>", EncodedSequence::<A>::from(by_iter.clone())),
+            ("FromIterator", by_iter.iter().copied().collect::<EncodedSequence<A>>()),
+            ("clone", seq.clone()),
+        ];
+        for (what, other) in rebuilt.iter() {
+            if other.to_string().as_bytes() != text || !(seq == *other) || !(*other == by_iter) {
+                return Some(Failure::new("symbols:rebuilt", format!("EncodedSequence::{} of the symbols displays {:?} or compares unequal", what, other.to_string())));
+            }
+        }
+        if !text.is_empty() {
+            let mut shorter = by_iter.clone();
+            shorter.pop();
+            if seq == shorter {
+                return Some(Failure::new("symbols:eq", "the sequence compares equal to its own proper prefix".to_string()));
+            }
+        }
     }
     let _ = case;
     None
@@ -214,7 +249,7 @@ impl Sub for Bytes {
         "bytes"
     }
     fn rule(&self) -> &'static str {
-        "valid text (both alphabets, lengths 0..200 quick / ..5000 thorough, biased to multiples of 16 +-3, plus texts around 1..4 x 4096 bytes) with 0-2 injected bytes from all 256 values (lower case, other alphabet's letters, NUL, >=0x80, punctuation) and, in a fifth of the cases, 1-2 whole non-ASCII characters (any scalar value; biased to code points whose low byte is a letter of the alphabet) so that the text stays valid UTF-8 and reaches from_str, at positions relative to the 16/32-byte blocks and the scalar tail, and in two fifths of the cases 1-4 runs of one valid or invalid byte whose starts and lengths sit on and around multiples of 16; encode / encode_raw / encode_into (into a reused destination holding a wrong symbol at every position, a whole vector and a sub-slice at offset 1..15 of a larger buffer) on generic, sse2, avx2 and the dispatcher forced to each arm, EncodedSequence::encode, from_str, Display compared with the model (ok iff all bytes in the alphabet; first offending byte reported); sweep = every length n <= 40 (quick) / 100 (thorough) x every position x every byte value, plus every two-byte character and every basic-plane character whose low byte is a letter inside a 5- and a 45-byte text, plus texts of 1 and 2 MiB with two invalid bytes (the later one near the start of its half / quarter), plus texts of 8192..16389 (thorough: ..32785 and 2 MiB) bytes with an invalid byte at each of the 68 positions around every multiple of 4096, alone and followed by a second one; non-trivial = n > 32 (vector path taken)"
+        "valid text (both alphabets, lengths 0..200 quick / ..5000 thorough, biased to multiples of 16 +-3, plus texts around 1..4 x 4096 bytes) with 0-2 injected bytes from all 256 values (lower case, other alphabet's letters, NUL, >=0x80, punctuation) and, in a fifth of the cases, 1-2 whole non-ASCII characters (any scalar value; biased to code points whose low byte is a letter of the alphabet) so that the text stays valid UTF-8 and reaches from_str, at positions relative to the 16/32-byte blocks and the scalar tail, and in two fifths of the cases 1-4 runs of one valid or invalid byte whose starts and lengths sit on and around multiples of 16; encode / encode_raw / encode_into (into a reused destination holding a wrong symbol at every position, a whole vector and a sub-slice at offset 1..15 of a larger buffer) on generic, sse2, avx2 and the dispatcher forced to each arm, EncodedSequence::encode, from_str, Display, the symbol accessors of the encoded sequence (Index, iter, IntoIterator, AsRef) and the sequence rebuilt from its symbols (new, From<Vec>, FromIterator, clone; ==) compared with the model (ok iff all bytes in the alphabet; first offending byte reported); sweep = every length n <= 40 (quick) / 100 (thorough) x every position x every byte value, plus every two-byte character and every basic-plane character whose low byte is a letter inside a 5- and a 45-byte text, plus texts of 1 and 2 MiB with two invalid bytes (the later one near the start of its half / quarter), plus texts of 8192..16389 (thorough: ..32785 and 2 MiB) bytes with an invalid byte at each of the 68 positions around every multiple of 4096, alone and followed by a second one; non-trivial = n > 32 (vector path taken)"
     }
     fn cases(&self, tier: Tier) -> u64 {
         tier.pick(150_000, 4_000_000)
@@ -330,7 +365,9 @@ impl Sub for Bytes {
         out
     }
     fn check(&self, case: &Case, _cx: &Cx) -> Verdict {
-        let text = text_of_case(case);
+        // an allocation of exactly the text's length: under C06's sanitised / guard-allocator builds of this
+        // property a read past the last byte of the caller's text leaves the block
+        let text: Box<[u8]> = text_of_case(case).into_boxed_slice();
         let mut info = CaseInfo::new();
         let letters = case.abc.letters();
         let n = text.len();
